@@ -4,7 +4,8 @@
    Models: Model/C08_Guards.v (part A), Model/C08_Panic.v (part B).
    Tie: harness/py/props/c08.py. *)
 From Coq Require Import List ZArith NArith Bool Arith.
-From Verif Require Import Model.C08_Guards Model.C08_Panic Gen.C08_Consts Proofs.C08_Guards Proofs.C08_Panic.
+From Verif Require Import Model.C08_Guards Model.C08_Guards2 Model.C08_Panic Gen.C08_Consts Proofs.C08_Guards Proofs.C08_Panic.
+From Verif Require Import Proofs.C08_P4_Once Proofs.C08_P4_Thms Proofs.C08_P4_Guards.
 Import ListNotations.
 Local Open Scope Z_scope.
 
@@ -162,6 +163,109 @@ Theorem C08_enumeration_sizes :
 Proof. exact enum_sizes. Qed.
 Print Assumptions C08_enumeration_sizes.
 
+
+(* ======================= phase 4 ============================================ *)
+(* ---- part A: guards on the shape of a value (Model/C08_Guards2.v) ---- *)
+(* m[k] = v panics exactly when m is the nil map (`false`), otherwise it stores *)
+Theorem C08_map_store_guard_fires_iff_spec : forall m k v, impl_map_store m k v = spec_map_store m k v.
+Proof. exact map_store_guard_iff. Qed.
+Print Assumptions C08_map_store_guard_fires_iff_spec.
+Theorem C08_map_store_guard_throws_iff : forall m k v, impl_map_store m k v = GThrow <-> m = JMNil.
+Proof. exact map_store_throws_iff. Qed.
+Print Assumptions C08_map_store_guard_throws_iff.
+(* v, ok = m[k] through $mapIndex never panics, also on the nil map, and gives the stored entry / the zero value *)
+Theorem C08_map_read_guard_fires_iff_spec : forall m k, impl_map_read m k = spec_map_read m k /\ impl_map_read m k <> GThrow.
+Proof. exact map_read_both. Qed.
+Print Assumptions C08_map_read_guard_fires_iff_spec.
+(* p.f and p.f = v through a struct pointer: panic exactly when p is typ.ptr.nil (f one of the struct's fields) *)
+Theorem C08_nil_ptr_get_guard_fires_iff_spec : forall p i, (i < ptr_nfields p)%nat ->
+  impl_ptr_get p i = spec_ptr_get p i /\ (impl_ptr_get p i = GThrow <-> exists n, p = JPNil n).
+Proof. exact ptr_get_both. Qed.
+Print Assumptions C08_nil_ptr_get_guard_fires_iff_spec.
+Theorem C08_nil_ptr_set_guard_fires_iff_spec : forall p i v, (i < ptr_nfields p)%nat ->
+  impl_ptr_set p i v = spec_ptr_set p i v /\ (impl_ptr_set p i v = GThrow <-> exists n, p = JPNil n).
+Proof. exact ptr_set_both. Qed.
+Print Assumptions C08_nil_ptr_set_guard_fires_iff_spec.
+(* x.(T) panics exactly when the assertion does not hold (nil interface, other dynamic type, missing method) *)
+Theorem C08_assert_guard_throws_iff : forall v t, impl_assert v t false = GThrow <-> ~ assert_holds v t.
+Proof. exact assert_throws_iff. Qed.
+Print Assumptions C08_assert_guard_throws_iff.
+(* v, ok := x.(T) never panics; ok iff the assertion holds; then v is the dynamic value, else the zero value *)
+Theorem C08_assert_commaok_never_throws : forall v t,
+  impl_assert v t true <> GThrow /\
+  ((exists pl, impl_assert v t true = GOk [pl; 1]) <-> assert_holds v t) /\
+  (~ assert_holds v t -> impl_assert v t true = GOk [0; 0]) /\
+  (forall tid ms pl, v = JIVal tid ms pl -> assert_holds v t -> impl_assert v t true = GOk [pl; 1] /\ impl_assert v t false = GOk [pl]).
+Proof. exact assert_commaok_iff. Qed.
+Print Assumptions C08_assert_commaok_never_throws.
+
+(* ---- part B: the stack-shape invariant of ImplPanic, UNBOUNDED (every program, every fuel, every JS depth) for every
+   variant whose $callDeferred re-queues a panic only when the goroutine goes to sleep (the current code, V_FULL, and
+   V_REPAIRED).  [Inv] (Proofs/C08_P4_Once.v): the deferStack has no duplicates, its ids are older than the id counter,
+   every $deferred list that is not on the deferStack is empty, and no panic is queued while compiled Go code runs. ---- *)
+
+(* one activation of a compiled function, however it is left (normal return, panic, Goexit, recovered panic unwinding
+   through it): invariant kept, $stackDepthOffset restored, deferStack cut back to a suffix (unchanged on normal return),
+   and every list that does not belong to a still active frame is empty *)
+Theorem C08_activation_restores_stack_shape : forall vr fuel p d cell body s out s',
+  v_pushback_asleep_only vr = true -> Inv s ->
+  impl_fun vr fuel p d cell body s = Some (out, s') ->
+  Inv s' /\ j_offset s' = j_offset s /\ suffix (j_deferStack s') (j_deferStack s) /\
+  ((forall e, out <> JThrow e) -> j_deferStack s' = j_deferStack s) /\
+  (forall id, ~ In id (j_deferStack s) -> list_get (j_lists s') id = []).
+Proof. exact fun_leaves_clean. Qed.
+Print Assumptions C08_activation_restores_stack_shape.
+
+(* an epilogue $callDeferred(deferred, err) finds its own $deferred array on top of the deferStack or not at all, and pops
+   exactly that frame when it returns normally *)
+Theorem C08_epilogue_pops_own_frame : forall vr fuel p d id jsErr s out s',
+  v_pushback_asleep_only vr = true -> Inv s ->
+  (In id (j_deferStack s) -> exists ds0, j_deferStack s = id :: ds0) ->
+  impl_cd vr fuel p d (Some id) jsErr false s = Some (out, s') ->
+  Inv s' /\ j_offset s' = j_offset s /\ ~ In id (j_deferStack s') /\
+  ((forall e, out <> JThrow e) -> exists ds0, j_deferStack s = id :: ds0 /\ j_deferStack s' = ds0).
+Proof. exact epilogue_pops_own_frame. Qed.
+Print Assumptions C08_epilogue_pops_own_frame.
+
+(* $panic(v) never returns to its caller *)
+Theorem C08_panic_never_returns : forall vr fuel p d v s out s',
+  v_pushback_asleep_only vr = true -> Inv s ->
+  impl_cd vr fuel p d None None true (j_set_ps (v :: j_panicStack s) s) = Some (out, s') ->
+  (exists e, out = JThrow e) /\ Inv s' /\ j_offset s' = j_offset s /\ suffix (j_deferStack s') (j_deferStack s).
+Proof. exact panic_never_returns. Qed.
+Print Assumptions C08_panic_never_returns.
+
+(* defer_lifo_exactly_once (no longer partial for the non-suspending machine): C08_defer_lifo_once_full_statement holds for
+   the current code — for EVERY program and fuel, at the end of the goroutine every pushed deferred call has run exactly
+   once, in LIFO order within its activation ([pend] replays push/run events as a stack and ends empty), whether the
+   functions returned, panicked (recovered or fatal) or the goroutine exited *)
+Theorem C08_defer_lifo_exactly_once : C08_defer_lifo_once_full_statement V_FULL.
+Proof. exact (defer_once_full V_FULL eq_refl). Qed.
+Print Assumptions C08_defer_lifo_exactly_once.
+Theorem C08_defer_lifo_exactly_once_any_asleep_only_variant : forall vr, v_pushback_asleep_only vr = true ->
+  C08_defer_lifo_once_full_statement vr.
+Proof. exact defer_once_full. Qed.
+Print Assumptions C08_defer_lifo_exactly_once_any_asleep_only_variant.
+(* ... and per activation, at the moment the activation is left (its own list has the fresh id j_next s) *)
+Theorem C08_defer_exactly_once_per_activation : forall vr fuel p d cell body s out s',
+  v_pushback_asleep_only vr = true -> Inv s -> inv s ->
+  impl_fun vr fuel p d cell body s = Some (out, s') ->
+  forall id, ~ In id (j_deferStack s) -> pend id (j_trace s') = Some [].
+Proof. exact defer_exactly_once_per_activation. Qed.
+Print Assumptions C08_defer_exactly_once_per_activation.
+(* the final state of every run: nothing left on the deferStack, no queued panic, $stackDepthOffset back at 0, all lists empty *)
+Theorem C08_run_ends_clean : forall vr fuel p out s,
+  v_pushback_asleep_only vr = true ->
+  impl_fun vr fuel p 0 0 wrapper j_init = Some (out, s) ->
+  j_deferStack s = [] /\ j_panicStack s = [] /\ j_offset s = 0 /\ forall id, list_get (j_lists s) id = [].
+Proof. exact run_ends_clean. Qed.
+Print Assumptions C08_run_ends_clean.
+
+(* still partial: impl_refines_spec_panic (C08_impl_refines_spec_panic_full_statement) and recover_legal_iff.  The
+   invariant above is the stack-shape half of the simulation; the other half — relating $panicStackDepth/$panicValue to
+   SpecPanic's per-activation [l_rk] across the two machines' different recursion structure ($panic runs the callers'
+   deferred calls from inside the callee) and their different cell numbering — is not proved. *)
+
 (* Non-vacuity: guards on concrete boundary operands; the machines on a program with a
    recovered run-time error, a helper-level recover that must return nil, a named
    result changed after recover and a deferred call with its argument fixed at the defer. *)
@@ -175,3 +279,15 @@ Example C08_nonvacuous :
   obs (impl_run V_FULL 100 p) = Some ([ETraceX 0 0; ERec None; ERec (Some (PRt 0)); ETraceX 7 0], FNormal) /\
   obs (spec_run 100 p) = obs (impl_run V_FULL 100 p).
 Proof. vm_compute. repeat split; reflexivity. Qed.
+
+Example C08_phase4_nonvacuous :
+  Inv j_init /\ v_pushback_asleep_only V_FULL = true /\
+  impl_map_store JMNil 1 2 = GThrow /\ impl_map_store (JMMap [(1, 5)]) 1 2 = GOk [1; 2] /\
+  impl_ptr_get (JPNil 2) 1 = GThrow /\ impl_ptr_get (JPObj [7; 8]) 1 = GOk [8] /\
+  impl_assert (JIVal 3 [10; 11] 42) (TIface [11]) false = GOk [42] /\ impl_assert (JIVal 3 [10] 42) (TIface [11]) false = GThrow /\
+  (exists out s, impl_fun V_FULL 100 [[SDeferClo [SRecover]; SDeferClo [SPanic (PInt 2)]; SPanic (PInt 1)]] 0 0 wrapper j_init = Some (out, s)).
+Proof.
+  split; [exact Inv_init|]. split; [reflexivity|].
+  repeat (split; [vm_compute; reflexivity|]).
+  vm_compute. eexists. eexists. reflexivity.
+Qed.
